@@ -51,6 +51,13 @@ type target struct {
 func transcript(src string, ctx context.Context) string {
 	env := el.MustEnv(el.Opts{Stdlib: true})
 	lisp.WithMaxSteps(1 << 40)(env.LEnv) // makes the step counter count
+	if strings.HasPrefix(src, ";maxalloc=") {
+		// a target may ask for a per-operation allocation cap (a configuration of the runtime, part of "a given
+		// source under a given configuration")
+		var n int
+		fmt.Sscanf(src, ";maxalloc=%d", &n)
+		env.Runtime.MaxAlloc = n
+	}
 	env.Err.Reset()
 	var v *lisp.LVal
 	if ctx != nil {
@@ -185,6 +192,10 @@ func handTargets() []target {
 	// several members of one object fail to load: WHICH failure is reported must not depend on Go map order
 	add("json/object-member-errors", "(handler-bind ([condition (lambda (c &rest d) (list c d))]) (json:load-string \"{\\\"k07\\\":77777777777777777777,\\\"k03\\\":33333333333333333333,\\\"k11\\\":11111111111111111111111,\\\"k01\\\":10000000000000000000001,\\\"k09\\\":99999999999999999999,\\\"k05\\\":55555555555555555555}\" :exact-integers true))")
 	add("json/nested-member-errors", "(handler-bind ([condition (lambda (c &rest d) (list c d))]) (json:load-bytes (to-bytes \"{\\\"a\\\":{\\\"x\\\":77777777777777777777,\\\"y\\\":33333333333333333333,\\\"z\\\":1},\\\"b\\\":[1,{\\\"p\\\":99999999999999999999,\\\"q\\\":88888888888888888888,\\\"r\\\":66666666666666666666}]}\") :exact-integers true))")
+	// the same under an allocation cap: several members of one object exceed it, by different amounts
+	add("json/object-members-over-alloc-cap", ";maxalloc=4\n(handler-bind ([condition (lambda (c &rest d) (list c d))]) (json:load-string \"{\\\"k07\\\":[1,2,3,4,5],\\\"k03\\\":[1,2,3,4,5,6],\\\"k11\\\":[1,2,3,4,5,6,7],\\\"k01\\\":{\\\"a\\\":1,\\\"b\\\":2,\\\"c\\\":3,\\\"d\\\":4,\\\"e\\\":5,\\\"f\\\":6,\\\"g\\\":7,\\\"h\\\":8},\\\"k09\\\":[1,2,3,4,5,6,7,8,9]}\"))")
+	add("json/nested-members-over-alloc-cap", ";maxalloc=3\n(handler-bind ([condition (lambda (c &rest d) (list c d))]) (json:load-bytes (to-bytes \"{\\\"a\\\":{\\\"x\\\":[1,2,3,4],\\\"y\\\":[1,2,3,4,5],\\\"z\\\":1},\\\"b\\\":[1,{\\\"p\\\":[1,2,3,4,5,6],\\\"q\\\":[1,2,3,4,5,6,7]}]}\")))")
+	add("concat/over-alloc-cap", ";maxalloc=4\n(list (handler-bind ([condition (lambda (c &rest d) (list c d))]) (concat 'list '(1 2 3) '(4 5 6))) (handler-bind ([condition (lambda (c &rest d) (list c d))]) (make-sequence 0 100)))")
 	add("json/message", "(json:dump-message (sorted-map \"b\" 1 \"a\" (vector 1 2)))")
 	add("string/format", "(format-string \"{} {} {}\" 'a (vector 1 (sorted-map 'x 1)) 1.5)")
 	add("regexp", "(regexp:regexp-match? (regexp:regexp-compile \"^a+$\") \"aaa\")")
